@@ -85,7 +85,7 @@ func gView(d *state.VerifC11Dump) (view, accs string) {
 
 // operations the model never hears of: NodeClaims of a foreign node class (the informer must ignore them) and
 // nomination (checked by the Go-side carry-over oracle)
-var hidden = map[string]bool{"Nominate": true, "SetForeignClaim": true, "DelForeignClaim": true, "DeliverForeignClaim": true}
+var hidden = map[string]bool{"Nominate": true, "SetForeignClaim": true, "DelForeignClaim": true, "DeliverForeignClaim": true, "FaultDeliverNode": true, "FaultDeliverPod": true, "CreatePV": true, "DeletePV": true, "Tick": true}
 
 func gItem(o Op) string {
 	switch o.Kind {
